@@ -99,7 +99,7 @@ theorem mover_genname (env : PEnv) (md : Maildir) (flags : Option Bytes) (fuel c
   | succ fuel ih =>
     unfold genname
     simp only [bind_eq, pure_eq, call_bind]
-    generalize (decimalInt env.now ++ [46] ++ decimal env.pid ++ [95] ++ decimal (count + 1) ++ [46] ++ env.host ++
+    generalize (decimalInt env.now ++ [46] ++ decimal env.pid ++ [95] ++ decimal ((count + 1) % gennameWrap) ++ [46] ++ env.host ++
           flags.getD []) = nm
     split
     · exact h0
@@ -158,7 +158,7 @@ theorem mover_maildirMove (env : PEnv) (s dst : Maildir) (ms : MsgSt) (tr : Trac
   split
   · exact h1
   rename_i fl _
-  refine wp_bind_ext (mover_genname env dst (some fl) 4096 _ _ h1) ?_
+  refine wp_bind_ext (mover_genname env dst (some fl) gennameAttempts _ _ h1) ?_
   intro g L1 hg
   cases g with
   | none => exact hg
